@@ -346,9 +346,19 @@ pub struct ByzRule {
 #[derive(Clone, Debug, Serialize, Deserialize, PartialEq)]
 pub enum ByzKind {
     /// STREAM frame for an open peer-readable stream at offset = stream credit + delta
-    StreamBeyondStreamCredit { delta: u64 },
+    StreamBeyondStreamCredit {
+        delta: u64,
+        /// send an empty STREAM frame with FIN whose final size lies beyond the credit instead of
+        /// one byte of data
+        #[serde(default)]
+        empty_fin: bool,
+    },
     /// STREAM frame such that the connection credit is exceeded
-    StreamBeyondConnCredit { delta: u64 },
+    StreamBeyondConnCredit {
+        delta: u64,
+        #[serde(default)]
+        empty_fin: bool,
+    },
     StreamAtMaxOffset,
     /// stream id beyond MAX_STREAMS
     StreamIdBeyondLimit { bidi: bool, by: u64 },
